@@ -372,7 +372,7 @@ def c11_file_stem(sfx: int, has_title: bool, s0: int, s1: int) -> bool:
     path = "/forms/" + stem + h12.SUFFIXES[sfx]
     md = h12._MD + ("| settings |\n| | form_title |\n| | T |\n" if has_title else "")
     h12._FS.clear()
-    h12._FS[path] = md.encode("utf-8")
+    h12._FS.append((path, md.encode("utf-8")))
     real = B.Path
     B.Path = h12._FakePath
     try:
